@@ -236,6 +236,23 @@ fn vec_class<W: Wt>(ws: &[M]) -> &'static str {
     }
 }
 
+pub fn vec_class_pub<W: Wt>(ws: &[M]) -> &'static str {
+    vec_class::<W>(ws)
+}
+
+/// one try_sample on the state reached by `ops` under a forced word (fuzz target tree_sample; the panic while
+/// building a state is reported like in c10_one)
+pub fn tree_sample_case<W: Wt>(ops: &[Op], pos: u64, word: u64, seed: u64) -> Option<(String, String)> {
+    let (tree, model) = match state_from_history::<W>(ops)? {
+        Ok(x) => x,
+        Err(msg) => return Some(("panic_building_state".into(), format!("WeightedTreeIndex<{}>: {}", W::NAME, msg))),
+    };
+    let mut rng = VRng::from_env(seed);
+    rng.force(pos, word);
+    rng.begin_call();
+    tree_sample_check::<W>(&tree, &model, &mut rng)
+}
+
 fn viol(ctx: &Ctx, fam: &str, wt: &str, sym: &str, trig: &str, what: String, case: Value) {
     ctx.violation(Violation {
         property: ctx.property.clone(),
